@@ -82,8 +82,26 @@ type Diff struct {
 // default arrives as the default; (3) for a defaulted primitive attribute (non-pointer field,
 // zero is the only way to say "unset") zero may arrive as zero or as the default.
 func Equal(sp *spec.Spec, t *spec.Type, a *spec.Attr, sent, recv any, path string) *Diff {
+	return equalR(sp, t, a, sent, recv, path, nil, false)
+}
+
+// EqualBody is Equal with one normalisation removed for attributes that travel in a JSON body
+// (inBody names the top-level attributes that do; everything nested below them does too):
+// there "explicitly empty" ([] / {}) and "unset" are different texts on the wire, so an
+// explicitly empty collection with a design default must arrive empty, not as the default.
+func EqualBody(sp *spec.Spec, t *spec.Type, a *spec.Attr, sent, recv any, path string, inBody func(attr string) bool) *Diff {
+	return equalR(sp, t, a, sent, recv, path, inBody, false)
+}
+
+func equalR(sp *spec.Spec, t *spec.Type, a *spec.Attr, sent, recv any, path string, inBody func(attr string) bool, strict bool) *Diff {
 	if a != nil && a.HasDefault {
 		def := DefaultNeutral(sp, a.T, a.Default)
+		if strict && sent != nil && spec.IsEmptyColl(sent) && !unsetLike(def) {
+			if unsetLike(recv) {
+				return nil
+			}
+			return &Diff{path, a, t, sent, recv, fmt.Sprintf("explicitly empty collection (body) with default %s arrived as %s", spec.Canon(def), spec.Canon(recv))}
+		}
 		if unsetLike(sent) {
 			if spec.Canon(recv) == spec.Canon(def) {
 				return nil
@@ -119,7 +137,7 @@ func Equal(sp *spec.Spec, t *spec.Type, a *spec.Attr, sent, recv any, path strin
 			return &Diff{path, a, t, sent, recv, "array length/type differs"}
 		}
 		for i := range s {
-			if d := Equal(sp, e.Elem, nil, s[i], r[i], fmt.Sprintf("%s[%d]", path, i)); d != nil {
+			if d := equalR(sp, e.Elem, nil, s[i], r[i], fmt.Sprintf("%s[%d]", path, i), nil, strict); d != nil {
 				if d.Attr == nil {
 					d.Attr = a
 				}
@@ -137,7 +155,7 @@ func Equal(sp *spec.Spec, t *spec.Type, a *spec.Attr, sent, recv any, path strin
 			for _, rkv := range r {
 				if spec.Canon(kv.K) == spec.Canon(rkv.K) {
 					found = true
-					if d := Equal(sp, e.Elem, nil, kv.V, rkv.V, path+"["+spec.Canon(kv.K)+"]"); d != nil {
+					if d := equalR(sp, e.Elem, nil, kv.V, rkv.V, path+"["+spec.Canon(kv.K)+"]", nil, strict); d != nil {
 						if d.Attr == nil {
 							d.Attr = a
 						}
@@ -156,7 +174,11 @@ func Equal(sp *spec.Spec, t *spec.Type, a *spec.Attr, sent, recv any, path strin
 			return &Diff{path, a, t, sent, recv, "object expected"}
 		}
 		for _, at := range e.Attrs {
-			if d := Equal(sp, at.T, at, s[at.Name], r[at.Name], path+"."+at.Name); d != nil {
+			st := strict
+			if inBody != nil {
+				st = inBody(at.Name)
+			}
+			if d := equalR(sp, at.T, at, s[at.Name], r[at.Name], path+"."+at.Name, nil, st); d != nil {
 				return d
 			}
 		}
